@@ -20,6 +20,8 @@ fn main() -> ExitCode {
         "tokens" => comp::tokens(&opts),
         "peers" => comp::peers(&opts),
         "table" => comp::table(&opts),
+        "txn" => comp::txn(&opts),
+        "bep42" => comp::bep42(&opts),
         other => {
             eprintln!("unknown sub-command {other}");
             return ExitCode::from(2);
